@@ -1,4 +1,4 @@
-import QtVerif.Proofs.PortIO
+import QtVerif.Proofs.PortIOStage
 /-!
 C14 — Per-port driver calls never overlap and writes keep request order.
 
@@ -10,6 +10,17 @@ Every theorem quantifies over every reachable state, i.e. every interleaving of 
 (`Reachable c s`), and over every configuration `c` (every queue capacity `c.cap`, 0 = unbounded as in
 `asyncio.Queue`) unless a hypothesis says otherwise. `c.lockFix = true` is the repaired code
 (fixes/C14-load-write-lock.diff), `c.readGuard = true` the `_reading` test of `read_transformed_value`.
+
+Submission order. `submit` of the port slice is the atomic enqueue. The property speaks about the order in which values
+are *submitted*, i.e. the order of the calls of the public `transform_and_write_value`; between the call and the
+enqueue the write transform is evaluated, which suspends the caller (value-dependent number of loop iterations). The
+tie "enqueue order = call order" is the stage system `tstep` (Model/PortIO.lean, second part): theorems
+`call_order_is_queue_order` (repaired code, FIFO hand-over through `_submit_lock`, fixes/C14-submit-order-lock.diff) and
+`unrepaired_call_order_broken` (code before that fix). On the real code it is watched by the correspondence cases whose
+ports carry a function transform (`tr >= 2` in harness/props/c14.py: MUL, ADD, lazy IF with unequal branches, IF that
+fails for one value; null / failing / both-branch values in same-instant bursts from API, direct and sequence
+submitters): submissions are logged at the ENTRY of the public call and the driver must receive the transformed values
+in that order (corpus witnesses W2, W2b and the `[5, None, 7]` case).
 -/
 namespace QtVerif.PortIO.C14
 open QtVerif.PortIO
@@ -136,6 +147,25 @@ theorem system_calls_exclusive (cfgs : List Cfg) (σ : Sys) (h : SysReachable cf
   have hr := ((sys_reachable_port h).2 p c s hp).2
   exact ⟨hr, fun hg => reads_exclusive c hg s hr, fun hf => writes_exclusive c hf s hr⟩
 
+/-- **Call order is queue order** (repaired code): in every reachable state of the stage system the calls made are
+the calls that left the stage, in the same order, followed by those still in the stage; the values queued so far are
+exactly the values of the calls that left with an evaluated transform, in call order; and the port component is a
+reachable port state (so every theorem above applies to it, with `submitted` in call order). -/
+theorem call_order_is_queue_order (c : Cfg) (t : TState) (h : TReachable true c t) :
+    t.entered = t.passed.map (·.1) ++ t.stage ∧
+    t.port.submitted.map (·.val) = (t.passed.filter (·.2)).map (·.1.val) ∧
+    Reachable c t.port :=
+  let i := treachable_inv h
+  ⟨i.calls, i.queued, i.reach⟩
+
+/-- The code before fixes/C14-submit-order-lock.diff (no FIFO hand-over: the caller whose transform evaluation finishes
+first is queued first) breaks the order: calls 1 then 2, the second one is queued — and written — first. -/
+theorem unrepaired_call_order_broken (cap : Nat) :
+    ∃ t, TReachable false { cap := cap } t ∧ t.entered.map (·.val) = [1, 2] ∧
+      t.port.started.map (·.val) = [2] ∧ t.port.queue.map (·.val) = [1] := by
+  refine ⟨_, texec_reachable [.enter 1, .enter 2, .jump 1, .port .writerTake, .jump 0] TReachable.init rfl, ?_⟩
+  cases cap <;> exact ⟨rfl, rfl, rfl⟩
+
 /-! ### Non-vacuity: concrete schedules that meet the hypotheses and exercise drop, lock wait and order. -/
 
 /-- cap 2: five submissions while the first write is slow; tickets 1 and 2 are dropped (each while 2 were queued),
@@ -178,6 +208,13 @@ example : ∃ s s', exec { cap := 1 } State.init [.submit 1] = some s ∧ step {
 /-- Two ports, a step on each (hypotheses of `system_calls_exclusive`). -/
 example : ∃ σ, SysReachable [{ cap := 1 }, { cap := 4 }] σ ∧ (σ[1]?).map (fun x => x.2.queue.length) = some 1 := by
   refine ⟨_, SysReachable.step 1 (.submit 5) (SysReachable.step 0 .readBegin SysReachable.init rfl) rfl, rfl⟩
+
+/-- The stage with FIFO hand-over: three calls, the middle one's transform fails, a `jump` is not enabled. -/
+example : (texec true { cap := 4 } {} [.enter 5, .enter 105, .enter 7, .pass true, .pass false, .pass true,
+      .port .writerTake]).map (fun t => (t.port.submitted.map (·.val), t.port.started.map (·.val), t.stage.length))
+    = some ([5, 7], [5], 0) := by rfl
+
+example : texec true { cap := 4 } {} [.enter 5, .enter 7, .jump 1] = none := by rfl
 
 /-- Two ports with different capacities. -/
 example : SysReachable [{ cap := 1 }, { cap := 4 }]
